@@ -69,3 +69,5 @@ def run(ctx):
     from ..engines import mapplumbing as M12
     M12.m7_equivalence_predicate(ctx)
     ctx.floor("M7", 4)
+    B.b21_param_match_consults_both_sides(ctx)
+    ctx.floor("B21", 3)
